@@ -19,13 +19,20 @@ from pyvc.values import SymSeq, Rec, Obj, Func, Untracked, UF, StrS, IntS, BoolS
 
 LEVEL = 'proof'
 MIN_OBLIGATIONS = 30
-CFG = '/budget/config'
-CSV = CFG + '/merchant_categories.csv'
-BAK = CSV + '.bak'
-RULES = CFG + '/merchants.rules'
-SETTINGS = CFG + '/settings.yaml'
-TMP = SETTINGS + '.tmp'
-KEYLINE = 'merchants_file: config/merchants.rules\n'
+def set_config_dir(name='config'):
+    """the ghost budget's config directory (`tally up <dir>` takes a directory of any name); load_config resolves merchants_file against its parent, so the
+    key line that puts the migrated rules in force names <that directory>/merchants.rules"""
+    global CFG, CSV, BAK, RULES, SETTINGS, TMP, KEYLINE
+    CFG = '/budget/' + name
+    CSV = CFG + '/merchant_categories.csv'
+    BAK = CSV + '.bak'
+    RULES = CFG + '/merchants.rules'
+    SETTINGS = CFG + '/settings.yaml'
+    TMP = SETTINGS + '.tmp'
+    KEYLINE = 'merchants_file: %s/merchants.rules\n' % name
+
+
+set_config_dir('config')
 
 
 class Crash(Exception):
@@ -54,7 +61,7 @@ def effective_rules(files):
         if c is None:
             return 'none'
         return 'user' if c == ('conv', 'full') else 'broken'
-    if st is not None and key == 'partial':
+    if st is not None and key in ('partial', 'wrong'):
         return 'none'              # a half-written key line: the setting names a file that does not exist (or the YAML is broken)
     return 'user' if files.get(CSV) == ('csv',) else 'none'
 
@@ -100,6 +107,7 @@ def run_migration(ctx, files, faults, label):
     sp.models['os.path.join'] = Func(lambda I_, a, k, n: '/'.join(a))
     sp.models['os.path.basename'] = Func(lambda I_, a, k, n: a[0].split('/')[-1] if isinstance(a[0], str) else Untracked())
     sp.models['os.path.exists'] = Func(lambda I_, a, k, n: a[0] in fs.files)
+    sp.models['os.path.abspath'] = Func(lambda I_, a, k, n: a[0] if isinstance(a[0], str) and a[0].startswith('/') else Untracked())
 
     class Handle:
         def __init__(self, path, mode):
@@ -144,6 +152,11 @@ def run_migration(ctx, files, faults, label):
                 boundary('appended:settings.key_line')
             else:
                 boundary('appended:settings.comment')
+        elif path == TMP and mode == 'w' and isinstance(data, tuple) and data[:2] == ('CONTENT+WRONGKEY', SETTINGS) and data[2] is not None and data[2][0] == 'settings':
+            fs.files[path] = ('settings', 'partial')
+            boundary('partial_write:settings.tmp')
+            fs.files[path] = ('settings', 'wrong')           # names a file that does not exist: like a torn key, no rules and no fallback to the CSV
+            boundary('written:settings.tmp')
         elif path == TMP and mode == 'w' and isinstance(data, tuple) and data[:2] == ('CONTENT+KEY', SETTINGS) and data[2] is not None and data[2][0] == 'settings':
             # the whole new settings text goes into the temporary file: a torn write tears THAT file
             fs.files[path] = ('settings', 'partial')
@@ -204,7 +217,7 @@ def run_migration(ctx, files, faults, label):
         if isinstance(o, tuple) and o and o[0] == 'CONTENT' and attr in ('endswith', 'startswith', 'isspace'):
             return bool(ctx.choose(2, 'content.%s@%d' % (attr, getattr(node, 'lineno', 0))))
         if isinstance(o, tuple) and o and o[0] == 'SETTINGS_DICT' and attr == 'get' and args and args[0] == 'merchants_file':
-            return 'config/merchants.rules' if o[1] and o[1][0] == 'settings' and o[1][1] in ('partial', 'full') else None
+            return 'config/merchants.rules' if o[1] and o[1][0] == 'settings' and o[1][1] in ('partial', 'full', 'wrong') else None
         if isinstance(o, tuple) and o and o[0] == 'CONTENT' and attr in ('rstrip', 'strip'):
             return ('CONTENT+', o[1], o[2])
         return orig_method(o, attr, args, kwargs, node)
@@ -213,6 +226,8 @@ def run_migration(ctx, files, faults, label):
         if isinstance(a, tuple) and a and a[0] in ('CONTENT', 'CONTENT+', 'CONTENT+KEY') and isinstance(b, str) and isinstance(op, ast.Add):
             if b == KEYLINE and a[0] in ('CONTENT', 'CONTENT+'):
                 return ('CONTENT+KEY', a[1], a[2])            # the old settings text followed by the key line
+            if b.startswith('merchants_file: ') and b.endswith('/merchants.rules\n') and a[0] in ('CONTENT', 'CONTENT+'):
+                return ('CONTENT+WRONGKEY', a[1], a[2])       # a key line that names a merchants.rules somewhere else than where it was written
             if 'merchants_file' in b:
                 raise Unsupported('settings key written in another form: %r' % b)
             return (a[0] if a[0] == 'CONTENT+KEY' else 'CONTENT+', a[1], a[2])
@@ -248,6 +263,7 @@ def run_migration(ctx, files, faults, label):
 
 
 def h_migrate(ctx):
+    set_config_dir(('config', 'settings')[ctx.choose(2, 'config_dir_name')])
     had_key = False          # migration is only offered when settings.yaml has no merchants_file (load_config format 'csv')
     fs0 = FS(had_key)
     start = dict(fs0.files)
